@@ -201,8 +201,26 @@ def run_check(prop, tier, seed=None):
                 continue
             merge(agg, r)
     wall = time.time() - t0
-    # extra stages (determinism self-test on a sample; enumerations) live in the property definition
+    # determinism sample: a few of the runs again, in a fresh zygote under another PYTHONHASHSEED; the event-log
+    # digests (operations, outcomes, forked observations) must be identical
+    det = {'rerun': 0, 'mismatch': []}
+    if not only and agg['runs'] > 0:
+        try:
+            z = runner.Zygote(REPO, env={'PYTHONHASHSEED': '12345'})
+            for idx in sorted(int(k) for k in agg['digests'])[:4]:
+                r = z.run({'mode': P.mode, 'property': prop, 'seed': hash64(seed, prop, idx), 'index': idx, 'cfg': cfg,
+                           'opts': P.opts, 'timeout': P.timeout})
+                det['rerun'] += 1
+                if r['digest'] != agg['digests'][str(idx)]:
+                    det['mismatch'].append(idx)
+            z.close()
+        except runner.HarnessError as e:
+            agg['errors'].append({'error': 'determinism sample: ' + str(e)[:300]})
+        if det['mismatch']:
+            agg['errors'].append({'error': 'non-deterministic runs (digest differs under another PYTHONHASHSEED): %r' % det['mismatch']})
+    # extra stages (enumerations, real-locale sub-interpreters) live in the property definition
     extra = P.extra(prop, tier, seed, agg) if P.extra else {}
+    extra.setdefault('coverage', {})['determinism_sample'] = det
     return finish(prop, tier, seed, P, agg, kf, baseline, wall, t0, extra)
 
 
